@@ -3,6 +3,6 @@
 p=$1; id=$2; tier=${3:-quick}
 cd /repo || exit 2
 [ -z "$(git status --porcelain)" ] || { echo "/repo not clean"; exit 2; }
-git apply "$p" || exit 2
+git apply "$p" 2>/dev/null || patch -p1 -F3 -s --no-backup-if-mismatch -r - < "$p" || { git checkout -- .; exit 2; }
 (cd /verif && timeout 3000 ./check $id --tier $tier > /tmp/try_$id.log 2>&1; echo "exit=$?"; grep -c '^VIOLATION' /tmp/try_$id.log; grep -E "key=" /tmp/try_$id.log | sed 's/: .*//' | sort | uniq -c | sort -rn | head -5; grep -E "MACHINERY|Traceback" /tmp/try_$id.log | head -3)
 git checkout -- .
